@@ -2,7 +2,7 @@
    Only statements, each closed by `exact <lemma>`, its assumptions printed, and Examples
    showing that the hypotheses are met by non-trivial values. *)
 From Pybtex Require Import Base.Prelude Base.PyChar Base.PyStr Model.RtTypes Model.Backends
-  Proofs.Backends Proofs.BackendsMd Proofs.BackendsHtml Proofs.BackendsLatex.
+  Proofs.Backends Proofs.BackendsMd Proofs.BackendsHtml Proofs.BackendsLatex Proofs.BackendsDepth Proofs.BackendsTotal.
 Local Open Scope N_scope.
 
 (* ---- plain text: the output is the text with symbols replaced by the back end's plain
@@ -101,6 +101,26 @@ Theorem empty_fragments_vanish : forall enc T b n u e ps,
 Proof. exact empty_fragments_vanish_holds. Qed.
 Print Assumptions empty_fragments_vanish.
 
+(* ---- every character of a LaTeX field value keeps its brace-protection depth when the value is
+   parsed into rich text (LaTeXParser + the smart constructor: adjacent groups merge, empty groups
+   vanish) and rendered back to LaTeX; codec = identity on the value (DESIGN: enc = dec = id).
+   depth_profile lists the non-brace characters with their brace depth. *)
+Theorem latex_depth_roundtrip : forall T v, balanced v ->
+  exists t out, parse_latex v = Ok t /\ render (fun s => s) T BLatex t = Ok out /\
+                depth_profile out = depth_profile v.
+Proof. exact latex_depth_roundtrip_full. Qed.
+Print Assumptions latex_depth_roundtrip.
+
+(* every brace-balanced value is accepted (the model's fuel always suffices) *)
+Theorem from_latex_total : forall v, balanced v -> exists t, parse_latex v = Ok t.
+Proof. exact parse_latex_total. Qed.
+Print Assumptions from_latex_total.
+
+(* the parsed tree itself carries the depths: brace-free strings under nested Protected *)
+Theorem from_latex_carries_depths : forall v t, parse_latex v = Ok t -> sp t = true /\ tp 0 t = depth_profile v.
+Proof. exact parse_latex_spec. Qed.
+Print Assumptions from_latex_carries_depths.
+
 (* ---- non-vacuity ---- *)
 Definition ex_enc : enc_table :=
   [(35, (lit "\#", false)); (37, (lit "\%", false)); (38, (lit "\&", false)); (95, (lit "\_", false));
@@ -133,4 +153,10 @@ Example empty_fragment_example :
 Proof. vm_compute. auto. Qed.
 Example plain_example :
   render (enc_tab ex_enc) (mkTables [(lit "nbsp", lit " ")] [] []) BPlain ex_tree = Ok (lit "a<b & {c}~x_Y z").
+Proof. vm_compute. auto. Qed.
+Example depth_roundtrip_example : balanced (lit "a{b}{c}{}{{}}d{e{f}}{{g}h}") /\
+  parse_latex (lit "a{b}{c}{}{{}}d{e{f}}{{g}h}") =
+    Ok (RText [RStr (lit "a"); RProt [RStr (lit "bc")]; RStr (lit "d");
+               RProt [RStr (lit "e"); RProt [RStr (lit "fg")]; RStr (lit "h")]]) /\
+  (do t <- parse_latex (lit "a{b}{c}{}{{}}d{e{f}}{{g}h}"); render (fun s => s) ex_latex BLatex t) = Ok (lit "a{bc}d{e{fg}h}").
 Proof. vm_compute. auto. Qed.
